@@ -30,7 +30,7 @@ def run(tier, seed):
     #     filesystem; laws of the specification itself for every state x macro x argument of the bound
     cfgs = [("MC_VfsAssert", "MC_VfsAssert.cfg"), ("MC_VfsAssert_L1", "MC_VfsAssert_L1.cfg")]
     if thorough:
-        cfgs.append(("MC_VfsAssert_T", "MC_VfsAssert_T.cfg"))
+        cfgs += [("MC_VfsAssert_M", "MC_VfsAssert_M.cfg"), ("MC_VfsAssert_T", "MC_VfsAssert_T.cfg")]
     pool = ThreadPoolExecutor(max_workers=1)
     mcs = pool.submit(lambda: [(n, vlib.tlc_mc("MC_VfsAssert", c, workers=6 if not thorough else 8)) for n, c in cfgs])
 
@@ -38,7 +38,7 @@ def run(tier, seed):
     #     argument, the same trees on a Stdfs sandbox; every invocation judged by TLC (Trace_Assert)
     d = sub("macros")
     pe = _penv(d)
-    stride, sstride = (1, 1) if thorough else (8, 12)
+    stride, sstride = (1, 2) if thorough else (12, 8)
     args = ["--names", "a,b", "--depth", "2", "--links", "1", "--stride", str(stride), "--stdfs-stride", str(sstride),
             "--threads", "16", "--sandbox", os.path.join(d, "sandbox"), "--tier", tier, "--seed", str(seed)]
     summary = None
@@ -48,7 +48,7 @@ def run(tier, seed):
     except Stall as s:
         vlib.stall_violation(out, s, "macros")
     files = sorted(glob.glob(os.path.join(d, "macros.w00.t*.ndjson")))
-    chunks = vlib.split_chunks(files, d, "macrosc", 48 if thorough else 24)
+    chunks = vlib.split_chunks(files, d, "macrosc", 48 if thorough else 40)
     checked, classes = vlib.tlc_validate("Trace_Assert", chunks, extra_env=dict(PENV=pe))
     out.absorb("Trace_Assert", checked, classes, label="macros", grouped=True)
     if summary:
